@@ -616,6 +616,39 @@ fn eval_pipe(ctx: &Ctx, case: &PipeCase) -> Verdict {
     Ok(Pass::new().nontrivial(case.first < window).label(case.container.label()))
 }
 
+// ---------------------------------------------------------------------------------------------
+// the binary's own stdout failing (ENOSPC): every subcommand must report it
+
+#[derive(Clone, Debug, Serialize, Deserialize)]
+pub struct DevFullCase {
+    pub argv: Vec<String>,
+    pub cells: usize,
+}
+
+fn eval_dev_full(ctx: &Ctx, case: &DevFullCase) -> Verdict {
+    if !std::path::Path::new("/dev/full").exists() {
+        return Ok(Pass::new().label("no-/dev/full"));
+    }
+    let dir = ctx.worker_dir(crate::engine::worker_id());
+    let n = case.cells;
+    let spec = crate::model::spec::Spec::new(vec![n], (0..n).map(|i| (i % 97) as f64).collect());
+    std::fs::write(dir.join("full.sfs"), crate::props::common::text_bytes_exact(&spec)).expect("write");
+    let cs = crate::props::c10::fresh_record(3);
+    let callset = CallSet {
+        contigs: vec!["ctgF7".into()],
+        samples: vec!["a".into(), "b".into(), "c".into()],
+        records: (0..n.min(50) as u64).map(|i| crate::gen::callset::Record { pos: i + 1, ..cs.clone() }).collect(),
+    };
+    std::fs::write(dir.join("full.vcf"), callset.to_vcf()).expect("write");
+    let bin = ctx.sfs_bin.to_string_lossy().into_owned();
+    let script = format!("\"{bin}\" {} > /dev/full", case.argv.join(" "));
+    let run = crate::cli::run_bin(ctx, std::path::Path::new("/bin/bash"), &["-c", &script], crate::cli::Input::Null, &dir, &[]);
+    ensure!(!run.panicked(), "`sfs {} > /dev/full` panicked: {}", case.argv.join(" "), run.describe());
+    ensure!(matches!(run.code, Some(c) if c != 0), "`sfs {} > /dev/full`: every write fails with ENOSPC, yet the exit status is {:?}: {}", case.argv.join(" "), run.code, run.describe());
+    ensure!(!run.stderr.is_empty(), "`sfs {} > /dev/full`: no diagnostic", case.argv.join(" "));
+    Ok(Pass::new().nontrivial(true).label(case.argv[0].clone()))
+}
+
 pub fn check(ctx: &Ctx) -> Check {
     let parts: Vec<Box<dyn Part>> = vec![
         Box::new(RandomPart {
@@ -645,6 +678,30 @@ pub fn check(ctx: &Ctx) -> Check {
             cases: ctx.tier.pick(40, 300),
             strategy: Box::new(|| pipe_strategy().boxed()),
             eval: Box::new(eval_pipe),
+        }),
+        Box::new(crate::engine::EnumPart {
+            name: "stdout-enospc",
+            rule: "every subcommand with its stdout redirected to /dev/full (each write fails with ENOSPC), for outputs below and above the usual 8 KiB buffer: non-zero exit and a diagnostic, no panic",
+            exhaustive: false,
+            cases: Box::new(|_| {
+                let mut v = Vec::new();
+                for cells in [1usize, 5, 3000, 20000] {
+                    for argv in [
+                        vec!["view", "full.sfs"],
+                        vec!["view", "-O", "npy", "full.sfs"],
+                        vec!["view", "--normalize", "--precision", "12", "full.sfs"],
+                        vec!["fold", "full.sfs"],
+                        vec!["stat", "-s", "sum", "full.sfs"],
+                        vec!["stat", "-H", "-s", "sum,s,pi", "full.sfs"],
+                        vec!["create", "full.vcf"],
+                        vec!["create", "-p", "2", "full.vcf"],
+                    ] {
+                        v.push(DevFullCase { argv: argv.into_iter().map(String::from).collect(), cells });
+                    }
+                }
+                v
+            }),
+            eval: Box::new(eval_dev_full),
         }),
     ];
     Check {
